@@ -8,7 +8,7 @@ for d in seeded/*/; do
   id=$(basename $d)
   P=$(python3 -c "import json;m=json.load(open('$d/meta.json'));print(m.get('caught_by_other_property',{}).get('property') or m['breaks_property'])")
   echo -n "$id [$P] " >> $out/seeded.log
-  tools/seeded-verify.sh seeded $P $id >> $out/seeded.log 2>&1
+  tools/seeded-verify.sh "$PWD/seeded" $P $id >> $out/seeded.log 2>&1
 done
 for m in mutants/*.patch; do
   b=$(basename $m .patch)
